@@ -185,6 +185,11 @@ def kwargs_replay(ctx):
                'Text': lambda: R.TextPixelRegion(PixCoord(1, 2), 'x', visual=RegionVisual(vis))}[art]()
         with warnings.catch_warnings():
             warnings.simplefilter('ignore')
+            if n % 2:
+                # an earlier call with other keywords on the same region must leave nothing behind
+                other = {'Patch': {'edgecolor': 'magenta', 'linewidth': 9.0, 'fill': True}, 'Line2D': {'markeredgecolor': 'magenta', 'markersize': 29.0},
+                         'Text': {'color': 'magenta', 'size': 31.0, 'rotation': 5.0}}[art]
+                reg.as_artist(**other)
             a = reg.as_artist(**caller)
         n += 1
         ctx.case(('kwargs', art, style, tuple(sorted(vis)), tuple(sorted(caller))), True)
